@@ -49,6 +49,8 @@ type rtPath struct {
 	Fn    *ssa.Function
 	Items []rtItem
 	Facts []rtFact
+	binds []rtBind   // calls continued through a private helper (rtPathsR)
+	rets  []rtRetRec // their completions
 }
 
 func rtSameVal(a, b ssa.Value) bool {
@@ -201,6 +203,9 @@ func (p *rtPath) addFact(i int, cond ssa.Value, pol bool) bool {
 			}
 		}
 	}
+	if rtNeverHolds(p, i, f) {
+		return false
+	}
 	for _, g := range p.Facts {
 		if g.stale || g.Op != f.Op {
 			continue
@@ -240,23 +245,115 @@ func (p *rtPath) lastExec(i int, in ssa.Instruction) int {
 // through; a load of a local variable (Alloc) takes the value of the last store
 // to it on the path before the load was executed.
 func (p *rtPath) R(i int, v ssa.Value) ssa.Value {
-	for d := 0; d < 16; d++ {
+	for d := 0; d < 24; d++ {
 		switch x := v.(type) {
 		case *ssa.Phi:
-			if i < 0 || i >= len(p.Items) {
+			if i >= len(p.Items) {
+				i = len(p.Items) - 1
+			}
+			if i < 0 {
 				return v
 			}
 			nv, ok := p.Items[i].env[x]
+			if !ok && x.Parent() != p.frameFn(i) {
+				// a phi of another frame: its value when that frame last ran before item i
+				for j := i; j >= 0; j-- {
+					if p.Items[j].In.Parent() == x.Parent() {
+						nv, ok = p.Items[j].env[x]
+						break
+					}
+				}
+			}
 			if !ok || nv == v {
 				return v
 			}
 			v = nv
+			continue
+		case *ssa.Parameter:
+			if len(p.binds) == 0 || x.Parent() == p.Fn {
+				return v
+			}
+			if i >= len(p.Items) {
+				i = len(p.Items) - 1
+			}
+			b := p.bindOf(i, x.Parent())
+			if b == nil {
+				return v
+			}
+			k := -1
+			for n, q := range x.Parent().Params {
+				if q == x {
+					k = n
+				}
+			}
+			if k < 0 || k >= len(b.args) {
+				return v
+			}
+			v, i = b.args[k], b.at
+			continue
+		case *ssa.FreeVar:
+			if len(p.binds) == 0 {
+				return v
+			}
+			if i >= len(p.Items) {
+				i = len(p.Items) - 1
+			}
+			b := p.bindOf(i, x.Parent())
+			if b == nil || b.closure == nil {
+				return v
+			}
+			k := -1
+			for n, q := range x.Parent().FreeVars {
+				if q == x {
+					k = n
+				}
+			}
+			if k < 0 || k >= len(b.closure.Bindings) {
+				return v
+			}
+			v, i = b.closure.Bindings[k], b.at
+			continue
+		case *ssa.Call:
+			if len(p.rets) == 0 {
+				return v
+			}
+			if i >= len(p.Items) {
+				i = len(p.Items) - 1
+			}
+			r := p.retOf(i, x)
+			if r == nil || len(r.vals) != 1 {
+				return v
+			}
+			v, i = r.vals[0], r.retAt
+			continue
+		case *ssa.Extract:
+			if len(p.rets) == 0 {
+				return v
+			}
+			call, ok := x.Tuple.(*ssa.Call)
+			if !ok {
+				return v
+			}
+			if i >= len(p.Items) {
+				i = len(p.Items) - 1
+			}
+			r := p.retOf(i, call)
+			if r == nil || x.Index >= len(r.vals) {
+				return v
+			}
+			v, i = r.vals[x.Index], r.retAt
 			continue
 		case *ssa.UnOp:
 			if x.Op != token.MUL {
 				return v
 			}
 			a, ok := x.X.(*ssa.Alloc)
+			if !ok && len(p.binds) > 0 {
+				// a load through a pointer parameter of a helper bound to a local variable of the caller
+				if par, isPar := x.X.(*ssa.Parameter); isPar {
+					a, ok = p.R(i, par).(*ssa.Alloc)
+				}
+			}
 			if !ok {
 				return v
 			}
@@ -268,6 +365,13 @@ func (p *rtPath) R(i int, v ssa.Value) ssa.Value {
 			if st < 0 {
 				return v
 			}
+			// a later store into a part of the variable (v.f = x after v = y): the load is
+			// neither of the two values; leave it unresolved
+			for k := st + 1; k < j; k++ {
+				if ps, ok := p.Items[k].In.(*ssa.Store); ok && rtPartOf(ps.Addr, a) {
+					return v
+				}
+			}
 			v = p.Items[st].In.(*ssa.Store).Val
 			i = st
 			continue
@@ -275,6 +379,27 @@ func (p *rtPath) R(i int, v ssa.Value) ssa.Value {
 		return v
 	}
 	return v
+}
+
+// rtPartOf: addr addresses a field or element (possibly nested) of the variable a.
+func rtPartOf(addr ssa.Value, a *ssa.Alloc) bool {
+	for n := 0; n < 8; n++ {
+		switch x := addr.(type) {
+		case *ssa.FieldAddr:
+			if x.X == ssa.Value(a) {
+				return true
+			}
+			addr = x.X
+		case *ssa.IndexAddr:
+			if x.X == ssa.Value(a) {
+				return true
+			}
+			addr = x.X
+		default:
+			return false
+		}
+	}
+	return false
 }
 
 // lastStore returns the index of the last store before item i accepted by m.
@@ -294,11 +419,15 @@ func (p *rtPath) lastStore(i int, m func(*ssa.Store) bool) int {
 // whose access path (rtAP: parameters named by position) is addr
 // ("p1.Route.Error").
 func (p *rtPath) storedAt(i int, addr string) (ssa.Value, int) {
-	j := p.lastStore(i, func(s *ssa.Store) bool { return rtAP(s.Addr) == addr })
-	if j < 0 {
-		return nil, -1
+	if i > len(p.Items) {
+		i = len(p.Items)
 	}
-	return p.R(j, p.Items[j].In.(*ssa.Store).Val), j
+	for j := i - 1; j >= 0; j-- {
+		if st, ok := p.Items[j].In.(*ssa.Store); ok && p.AP(j, st.Addr) == addr {
+			return p.R(j, st.Val), j
+		}
+	}
+	return nil, -1
 }
 
 // storedField: the (resolved) value last stored, before item i, into field
@@ -678,13 +807,26 @@ func rtChainD(v ssa.Value, res func(ssa.Value) ssa.Value, depth int) (steps []st
 			if depth >= 3 || sc.Signature.Recv() != nil {
 				return steps, v
 			}
-			rets := core.Returns(sc)
-			if len(rets) != 1 || len(rets[0].Results) != 1 {
-				return steps, v
+			// every return that can execute must yield the same chain of the same parameter
+			var hs []string
+			var par *ssa.Parameter
+			live := 0
+			for _, r := range core.Returns(sc) {
+				if len(r.Results) != 1 {
+					return steps, v
+				}
+				if rtDeadReturn(r) {
+					continue
+				}
+				s1, hr := rtChainD(core.RetVals(r)[0], nil, depth+1)
+				p1, ok := hr.(*ssa.Parameter)
+				if !ok || (live > 0 && (p1 != par || rtJoin(s1) != rtJoin(hs))) {
+					return steps, v
+				}
+				hs, par = s1, p1
+				live++
 			}
-			hs, hr := rtChainD(rets[0].Results[0], nil, depth+1)
-			par, ok := hr.(*ssa.Parameter)
-			if !ok {
+			if live == 0 {
 				return steps, v
 			}
 			pi := -1
